@@ -724,6 +724,111 @@ fn classify_trace_diff(c: &Case, got: &[String], expected: &[String]) -> String 
 
 /// Large rule sets with many salience ties: insertion order among equals must survive sorting
 /// (small slices hide an unstable sort, so this part uses 21-60 rules).
+/// Part `timeout`: a call that is cut short by the wall-clock timeout is still a call of the history. 2..5 always-true
+/// rules in MAIN, generated salience and no-loop flags, `timeout = 10 ms`; one rule has an action that sleeps 30 ms the
+/// first time it runs (before or after the rule's recording action), so the first `execute` runs out of time somewhere
+/// behind it and returns whatever it returns. The second `execute` on the same engine (nothing sleeps any more) is then
+/// judged by the one clause that holds however the first call ended and however slow the machine is: a no-loop rule
+/// whose actions ran in the first call does not run again, and no no-loop rule runs twice within a call.
+pub fn run_timeout(s: &mut Src, ctx: &mut Ctx) -> Verdict {
+    let n = 2 + s.below(4);
+    let rules: Vec<(i32, bool)> = (0..n).map(|_| ([0, 0, 5, 10, -3][s.below(5)], s.chance(2, 3))).collect();
+    let slow = s.below(n);
+    let sleep_first = s.bool();
+    let entry = s.below(2);
+    let max_cycles = 1 + s.below(3);
+    if probe_only() {
+        return Verdict::Pass;
+    }
+    ctx.describe(|| {
+        format!(
+            "timeout 10 ms, max_cycles {}, {}: rules (salience, no-loop) {:?}, all always true; rule t{} sleeps 30 ms {} its recording action the first time it fires; then a second call",
+            max_cycles,
+            if entry == 0 { "execute" } else { "execute_at_time" },
+            rules,
+            slow,
+            if sleep_first { "before" } else { "after" }
+        )
+    });
+    let kb = KnowledgeBase::new("kb");
+    for (i, (sal, nl)) in rules.iter().enumerate() {
+        let mut params = HashMap::new();
+        params.insert("0".to_string(), Value::String(format!("t{}", i)));
+        let trace = ActionType::Custom { action_type: "trace".into(), params };
+        let nap = ActionType::Custom { action_type: "nap".into(), params: HashMap::new() };
+        let actions = if i != slow {
+            vec![trace]
+        } else if sleep_first {
+            vec![nap, trace]
+        } else {
+            vec![trace, nap]
+        };
+        let cond = ConditionGroup::single(Condition::new("F.one".to_string(), Operator::Equal, Value::Boolean(true)));
+        if kb.add_rule(Rule::new(format!("t{}", i), cond, actions).with_salience(*sal).with_no_loop(*nl)).is_err() {
+            return Verdict::fail("add-rule-error", "add_rule failed for a fresh name");
+        }
+    }
+    let mut engine = RustRuleEngine::with_config(kb, EngineConfig { max_cycles, timeout: Some(std::time::Duration::from_millis(10)), enable_stats: false, debug_mode: false });
+    let log: Arc<Mutex<Vec<String>>> = Arc::new(Mutex::new(Vec::new()));
+    let l2 = log.clone();
+    engine.register_action_handler("trace", move |params, _f| {
+        if let Some(Value::String(n)) = params.get("0") {
+            l2.lock().unwrap().push(n.clone());
+        }
+        Ok(())
+    });
+    let napped = Arc::new(std::sync::atomic::AtomicBool::new(false));
+    let n2 = napped.clone();
+    engine.register_action_handler("nap", move |_p, _f| {
+        if !n2.swap(true, std::sync::atomic::Ordering::SeqCst) {
+            std::thread::sleep(std::time::Duration::from_millis(30));
+        }
+        Ok(())
+    });
+    let facts = Facts::new();
+    let mut obj = HashMap::new();
+    obj.insert("one".to_string(), Value::Boolean(true));
+    let _ = facts.add_value("F", Value::Object(obj));
+    let mut traces: Vec<Vec<String>> = Vec::new();
+    let mut ended: Vec<&'static str> = Vec::new();
+    for _call in 0..2 {
+        log.lock().unwrap().clear();
+        let r = match catch(|| if entry == 0 { engine.execute(&facts) } else { engine.execute_at_time(&facts, Utc::now()) }) {
+            Ok(r) => r,
+            Err(p) => return Verdict::fail(format!("panic@{}", p.split(": ").next().unwrap_or("?")), p),
+        };
+        ended.push(if r.is_ok() { "Ok" } else { "Err" });
+        traces.push(log.lock().unwrap().clone());
+    }
+    for (c, t) in traces.iter().enumerate() {
+        for (i, (_, nl)) in rules.iter().enumerate() {
+            let name = format!("t{}", i);
+            if *nl && t.iter().filter(|x| **x == name).count() > 1 {
+                return Verdict::fail("timeout:no-loop-rule-ran-twice-in-one-call", format!("call {} ({}): actions ran for {:?}; {} is no-loop", c + 1, ended[c], t, name));
+            }
+        }
+    }
+    for (i, (_, nl)) in rules.iter().enumerate() {
+        let name = format!("t{}", i);
+        // "ran" = its recording action ran; for the sleeping rule with the nap first that is after the nap
+        if *nl && traces[0].contains(&name) && traces[1].contains(&name) {
+            return Verdict::fail(
+                "timeout:no-loop-rule-refired-after-a-call-that-ran-out-of-time",
+                format!(
+                    "first call returned {} after running the actions of {:?}; the second call on the same engine (no reset in between) ran {:?}: no-loop rule {} ran in both",
+                    ended[0], traces[0], traces[1], name
+                ),
+            );
+        }
+    }
+    ctx.label(if ended[0] == "Err" { "first-call-ran-out-of-time" } else { "first-call-returned-ok" });
+    if ended[0] == "Err" && rules[slow].1 && traces[0].contains(&format!("t{}", slow)) {
+        ctx.label("the-sleeping-rule-is-no-loop-and-ran");
+        ctx.nontrivial(hash_of(&(format!("{:?}", rules), slow, sleep_first, entry, max_cycles)));
+    }
+    Verdict::Pass
+}
+
 pub fn run_many(s: &mut Src, ctx: &mut Ctx) -> Verdict {
     let n = 21 + s.below(40);
     let nsal = 1 + s.below(4);
@@ -766,6 +871,7 @@ pub fn property() -> Property {
         parts: vec![
             Part { name: "random", run, quick: Budget::Random { cases: 1_000_000, bytes: 300 }, thorough: Budget::Random { cases: 20_000_000, bytes: 300 }, min_nontrivial_pct: 30 },
             Part { name: "many-rules", run: run_many, quick: Budget::Random { cases: 60_000, bytes: 400 }, thorough: Budget::Random { cases: 1_000_000, bytes: 400 }, min_nontrivial_pct: 30 },
+            Part { name: "timeout", run: run_timeout, quick: Budget::Random { cases: 1_500, bytes: 32 }, thorough: Budget::Random { cases: 15_000, bytes: 32 }, min_nontrivial_pct: 10 },
             Part { name: "exh3", run, quick: Budget::Skip, thorough: Budget::Exhaustive { param: 1 }, min_nontrivial_pct: 0 },
         ],
         watchdog: true,
